@@ -117,6 +117,13 @@ impl XmlReader {
     /// Returns an error if the XSD/WSDL is invalid
     pub fn read_xml(files_to_read: &FilesToRead) -> WriterResult<RustDocument> {
         let (content, start_with_file, files) = files_to_read.inner();
+
+        // the processed flags only guard against reading a file twice within one call;
+        // a repeated call on the same files has to start from scratch
+        for file in files.map.values() {
+            file.processed.store(false, std::sync::atomic::Ordering::SeqCst);
+        }
+
         Self::read_xml_internal(content, start_with_file, files)
     }
 
